@@ -39,7 +39,35 @@ type C13Span struct {
 	ID    string // span id (also payload and tag value)
 	TS    int64  // span timestamp (unix nanos)
 	Key   int64  // ordering key of its secondary-index entry
+	Size  int    // payload size in bytes (0: just "payload-<ID>"); larger payloads are zero-padded
 }
+
+// C13Payload is the payload written for a span.
+func C13Payload(s C13Span) []byte {
+	head := "payload-" + s.ID
+	if s.Size <= len(head) {
+		return []byte(head)
+	}
+	b := make([]byte, s.Size)
+	copy(b, head)
+	return b
+}
+
+// C13MaxBlockSpanBytes is the engine's per-block span byte limit (maxUncompressedSpanSize): a trace at or above it is
+// stored in several blocks of one part.
+const C13MaxBlockSpanBytes = maxUncompressedSpanSize
+
+// c13Protector is protector.Nop with a memory limit, which is what resolveStageBudget/resolveTraceBudget derive the
+// staging and per-trace budgets from.
+type c13Protector struct {
+	protector.Nop
+	limit uint64
+}
+
+func (p c13Protector) GetLimit() uint64 { return p.limit }
+
+// C13TraceBudget returns the per-trace staging budget the engine resolves for a memory limit.
+func C13TraceBudget(limit uint64) uint64 { return stageBudgetFromLimit(limit) }
 
 // C13Cfg configures one table instance.
 type C13Cfg struct {
@@ -51,6 +79,7 @@ type C13Cfg struct {
 	SegStart   time.Time
 	SegEnd     time.Time
 	ForceSlow  bool // package test seam forceSlowMerge (disables the raw fast path)
+	MemLimit   uint64 // protector memory limit (0: protector.Nop, no limit)
 }
 
 // C13SidxName is the name of the single secondary index the harness attaches.
@@ -99,8 +128,12 @@ func C13Open(dir string, cfg C13Cfg) *C13Table {
 		removeSamplersForGroup(cfg.Group)
 	}
 	setMergeEventForGroup(cfg.Group, cfg.MergeEvent)
+	var pm protector.Memory = protector.Nop{}
+	if cfg.MemLimit > 0 {
+		pm = c13Protector{limit: cfg.MemLimit}
+	}
 	tst, epoch := initTSTable(lfs, dir, common.Position{Database: cfg.Group}, logger.GetLogger("verif-c13"), option{
-		protector:                 protector.Nop{},
+		protector:                 pm,
 		mergePolicy:               newDefaultMergePolicyForTesting(),
 		decideTimeout:             time.Hour, // never fires: no verdict depends on wall-clock time
 		decideTimeoutCircuitBreak: 3,
@@ -183,7 +216,7 @@ func (v *C13Table) Write(spans []C13Span) {
 		tv := generateTagValue()
 		tv.tag, tv.valueType, tv.value = "t", pbv1.ValueTypeStr, []byte(s.ID)
 		ts.tags = append(ts.tags, []*tagValue{tv})
-		ts.spans = append(ts.spans, []byte("payload-"+s.ID))
+		ts.spans = append(ts.spans, C13Payload(s))
 		ts.spanIDs = append(ts.spanIDs, s.ID)
 		data := make([]byte, len(s.Trace)+1)
 		data[0] = byte(idFormatV1)
@@ -362,9 +395,11 @@ func (v *C13Table) InFlight() int {
 
 // C13Obs is one span as returned by the query path.
 type C13Obs struct {
-	ID      string
-	Payload string
-	Tag     string
+	ID         string
+	Payload    string // first len("payload-"+ID) bytes
+	Tag        string
+	PayloadLen int
+	ZeroTail   bool // every byte after the head is zero
 }
 
 // Query runs the trace-id query pipeline of trace.Query (staticTraceBatchSource -> startBlockScanStage ->
@@ -395,7 +430,18 @@ func (v *C13Table) Query(traceIDs []string) (map[string][]C13Obs, error) {
 		for i := range r.SpanIDs {
 			o := C13Obs{ID: r.SpanIDs[i]}
 			if i < len(r.Spans) {
-				o.Payload = string(r.Spans[i])
+				b := r.Spans[i]
+				h := len("payload-") + len(o.ID)
+				if h > len(b) {
+					h = len(b)
+				}
+				o.Payload, o.PayloadLen, o.ZeroTail = string(b[:h]), len(b), true
+				for _, c := range b[h:] {
+					if c != 0 {
+						o.ZeroTail = false
+						break
+					}
+				}
 			}
 			if len(r.Tags) == 1 && i < len(r.Tags[0].Values) {
 				o.Tag = r.Tags[0].Values[i].GetStr().GetValue()
